@@ -74,6 +74,16 @@ type Op struct {
 	ExErr   bool      `json:"ex_err,omitempty"` // the exchange call itself fails
 	All     string    `json:"all,omitempty"`    // "", "fwd", "rev": first deliver everything asked, honestly, in that order
 	Deliver []Deliver `json:"deliver,omitempty"`
+	// two-service cases: the call goes to service Svc (0|1). Foreign says whether the context
+	// of the call also carries a session of the OTHER service: "" no, "before"/"after" = put
+	// there before/after the call's own context preparation (Path ctxsession). ForeignEmbed:
+	// through EmbedSessionInContext(ctx, NewSession(ctx, other)) instead of ContextWithSession.
+	Svc          int    `json:"svc,omitempty"`
+	Foreign      string `json:"foreign,omitempty"`
+	ForeignEmbed bool   `json:"foreign_embed,omitempty"`
+	// fault injection: during this call Put/PutMany of the called service's blockstore fails
+	// for the pool blocks listed here (matched by multihash)
+	PutFail []int `json:"put_fail,omitempty"`
 }
 
 type Case struct {
@@ -81,6 +91,11 @@ type Case struct {
 	SessionExchange bool        `json:"session_exchange"`
 	Blocks          []BlockSpec `json:"blocks"`
 	Local           []int       `json:"local"` // in the blockstore before the first call
+	// Second adds an independent block service 1 (own blockstore holding Local2, own exchange
+	// of the same honesty level); every call is judged against the store and exchange of the
+	// service it was made on.
+	Second bool  `json:"second,omitempty"`
+	Local2 []int `json:"local2,omitempty"`
 	Ops             []Op        `json:"ops"`
 }
 
@@ -116,6 +131,10 @@ func genCase(t *rapid.T) Case {
 	}
 	idx := rapid.IntRange(0, n-1)
 	c.Local = rapid.SliceOfNDistinct(idx, 0, n, rapid.ID[int]).Draw(t, "local")
+	c.Second = rapid.IntRange(0, 9).Draw(t, "second") < 4
+	if c.Second {
+		c.Local2 = rapid.SliceOfNDistinct(idx, 0, n, rapid.ID[int]).Draw(t, "local2")
+	}
 	modes := []string{"ok"}
 	switch c.Level {
 	case "B":
@@ -136,6 +155,16 @@ func genCase(t *rapid.T) Case {
 		op.Kind = rapid.SampledFrom([]string{"get", "getmany", "getmany"}).Draw(t, "kind")
 		op.Path = rapid.SampledFrom([]string{"direct", "session", "ctxsession"}).Draw(t, "path")
 		op.ExErr = rapid.IntRange(0, 11).Draw(t, "exerr") == 0
+		if c.Second {
+			op.Svc = rapid.IntRange(0, 1).Draw(t, "svc")
+			op.Foreign = rapid.SampledFrom([]string{"", "before", "before", "after"}).Draw(t, "foreign")
+			if op.Foreign != "" {
+				op.ForeignEmbed = rapid.Bool().Draw(t, "foreignembed")
+			}
+		}
+		if rapid.IntRange(0, 3).Draw(t, "putfault") == 0 {
+			op.PutFail = rapid.SliceOfNDistinct(idx, 1, 3, rapid.ID[int]).Draw(t, "putfail")
+		}
 		if op.Kind == "get" {
 			op.Req = []Req{genReq()}
 			if rapid.IntRange(0, 4).Draw(t, "deliver") != 0 {
@@ -171,8 +200,15 @@ func genCase(t *rapid.T) Case {
 type gateBS struct {
 	blockstore.Blockstore
 	on   atomic.Bool
-	gate chan struct{}
+	gate chan struct{} // shared by all services of a case
+
+	mu       sync.Mutex
+	failMh   map[string]bool // multihashes whose Put fails (fault injection), set per call
+	nFailed  int             // injected failures that actually happened during the current call
+	nWritten int
 }
+
+var errInjected = errors.New("injected blockstore write failure")
 
 func (g *gateBS) wait(ctx context.Context) error {
 	if !g.on.Load() {
@@ -186,9 +222,37 @@ func (g *gateBS) wait(ctx context.Context) error {
 	}
 }
 
+func (g *gateBS) setFaults(mhs map[string]bool) {
+	g.mu.Lock()
+	g.failMh, g.nFailed, g.nWritten = mhs, 0, 0
+	g.mu.Unlock()
+}
+
+func (g *gateBS) failed() int {
+	g.mu.Lock()
+	defer g.mu.Unlock()
+	return g.nFailed
+}
+
+func (g *gateBS) faulty(bs ...blocks.Block) bool {
+	g.mu.Lock()
+	defer g.mu.Unlock()
+	for _, b := range bs {
+		if g.failMh[string(b.Cid().Hash())] {
+			g.nFailed++
+			return true
+		}
+	}
+	g.nWritten += len(bs)
+	return false
+}
+
 func (g *gateBS) Put(ctx context.Context, b blocks.Block) error {
 	if err := g.wait(ctx); err != nil {
 		return err
+	}
+	if g.faulty(b) {
+		return errInjected
 	}
 	return g.Blockstore.Put(ctx, b)
 }
@@ -196,6 +260,9 @@ func (g *gateBS) Put(ctx context.Context, b blocks.Block) error {
 func (g *gateBS) PutMany(ctx context.Context, bs []blocks.Block) error {
 	if err := g.wait(ctx); err != nil {
 		return err
+	}
+	if g.faulty(bs...) {
+		return errInjected
 	}
 	return g.Blockstore.PutMany(ctx, bs)
 }
@@ -346,6 +413,15 @@ var (
 // ---------------------------------------------------------------------------
 // oracle
 
+// unit is one block service with the blockstore and the exchange it was built from.
+type unit struct {
+	inner  blockstore.Blockstore
+	gbs    *gateBS
+	ex     *scriptEx
+	svc    blockservice.BlockService
+	shared *blockservice.Session
+}
+
 func run(c Case) kit.Result {
 	ctx, cancel := context.WithCancel(context.Background())
 	defer cancel()
@@ -359,25 +435,36 @@ func run(c Case) kit.Result {
 			byMh[string(pool[i].Cid().Hash())] = i
 		}
 	}
-	inner := blockstore.NewBlockstore(dssync.MutexWrap(ds.NewMapDatastore()))
-	for _, i := range c.Local {
-		if err := inner.Put(ctx, pool[i%n]); err != nil {
+	gate := make(chan struct{})
+	newUnit := func(local []int) (*unit, error) {
+		u := &unit{inner: blockstore.NewBlockstore(dssync.MutexWrap(ds.NewMapDatastore()))}
+		for _, i := range local {
+			if err := u.inner.Put(ctx, pool[i%n]); err != nil {
+				return nil, err
+			}
+		}
+		u.gbs = &gateBS{Blockstore: u.inner, gate: gate}
+		u.ex = &scriptEx{level: c.Level, pool: pool, byMh: byMh}
+		var exi exchange.Interface = plainEx{fetcher{u.ex}}
+		if c.SessionExchange {
+			exi = sessEx{plainEx{fetcher{u.ex}}}
+		}
+		u.svc = blockservice.New(u.gbs, exi)
+		return u, nil
+	}
+	var units []*unit
+	locals := [][]int{c.Local}
+	if c.Second {
+		locals = append(locals, c.Local2)
+	}
+	for _, l := range locals {
+		u, err := newUnit(l)
+		if err != nil {
 			return kit.Result{Err: fmt.Errorf("harness: %v", err)}
 		}
+		units = append(units, u)
 	}
-	gbs := &gateBS{Blockstore: inner, gate: make(chan struct{})}
-	ex := &scriptEx{level: c.Level, pool: pool, byMh: byMh}
-	var exi exchange.Interface = plainEx{fetcher{ex}}
-	if c.SessionExchange {
-		exi = sessEx{plainEx{fetcher{ex}}}
-	}
-	svc := blockservice.New(gbs, exi)
-	var shared *blockservice.Session
 
-	has := func(k cid.Cid) bool {
-		h, err := inner.Has(ctx, k)
-		return err == nil && h
-	}
 	valid := func(k cid.Cid) bool { return verifcid.ValidateCid(verifcid.DefaultAllowlist, k) == nil }
 	reqCid := func(r Req) cid.Cid {
 		k := pool[r.Idx%n].Cid()
@@ -388,15 +475,18 @@ func run(c Case) kit.Result {
 		}
 		return k
 	}
-	// was exactly this block (CID + bytes) handed over by the exchange as a malicious item
+	// was exactly this block (CID + bytes) handed over by an exchange as a malicious item
 	// at any point of this case? (the store may have been poisoned by an earlier call)
 	evil := func(b blocks.Block) bool {
-		ex.mu.Lock()
-		defer ex.mu.Unlock()
-		for _, d := range ex.delivered {
-			if d.evil && d.cid.Equals(b.Cid()) && d.data == string(b.RawData()) {
-				return true
+		for _, u := range units {
+			u.ex.mu.Lock()
+			for _, d := range u.ex.delivered {
+				if d.evil && d.cid.Equals(b.Cid()) && d.data == string(b.RawData()) {
+					u.ex.mu.Unlock()
+					return true
+				}
 			}
+			u.ex.mu.Unlock()
 		}
 		return false
 	}
@@ -407,17 +497,38 @@ func run(c Case) kit.Result {
 		}
 		return r
 	}
-	getter := func(path string) (blockservice.BlockGetter, context.Context) {
-		switch path {
-		case "session":
-			if shared == nil {
-				shared = blockservice.NewSession(ctx, svc)
+	// getter prepares the BlockGetter and the context of one call on unit u. In two-service
+	// cases the context may also carry a session that belongs to the other service; that
+	// session must not influence calls made on u.svc.
+	getter := func(op Op, u, other *unit) (blockservice.BlockGetter, context.Context) {
+		cctx := ctx
+		foreign := func() {
+			if other == nil || op.Foreign == "" {
+				return
 			}
-			return shared, ctx
-		case "ctxsession":
-			return svc, blockservice.ContextWithSession(ctx, svc)
+			if op.ForeignEmbed {
+				cctx = blockservice.EmbedSessionInContext(cctx, blockservice.NewSession(cctx, other.svc))
+			} else {
+				cctx = blockservice.ContextWithSession(cctx, other.svc)
+			}
 		}
-		return svc, ctx
+		if op.Foreign == "before" {
+			foreign()
+		}
+		var g blockservice.BlockGetter = u.svc
+		switch op.Path {
+		case "session":
+			if u.shared == nil {
+				u.shared = blockservice.NewSession(cctx, u.svc)
+			}
+			g = u.shared
+		case "ctxsession":
+			cctx = blockservice.ContextWithSession(cctx, u.svc)
+		}
+		if op.Foreign == "after" {
+			foreign()
+		}
+		return g, cctx
 	}
 
 	cls := map[string]bool{"level:" + c.Level: true}
@@ -425,12 +536,39 @@ func run(c Case) kit.Result {
 
 	for opi, op := range c.Ops {
 		opc := op
-		ex.mu.Lock()
-		ex.op = &opc
-		ex.asked = nil
-		firstDelivery := len(ex.delivered)
-		ex.mu.Unlock()
-		g, gctx := getter(op.Path)
+		u := units[0]
+		var other *unit
+		if len(units) == 2 {
+			u, other = units[op.Svc%2], units[1-op.Svc%2]
+			cls["two-services"] = true
+			if op.Foreign != "" {
+				cls["foreign-session-in-ctx"] = true
+			}
+		}
+		// every exchange of the case follows the script of the current call, so that a call
+		// that is wrongly routed to the other service's exchange is answered there
+		firstDelivery := make([]int, len(units))
+		for i, x := range units {
+			x.ex.mu.Lock()
+			x.ex.op = &opc
+			x.ex.asked = nil
+			firstDelivery[i] = len(x.ex.delivered)
+			x.ex.mu.Unlock()
+		}
+		var failMh map[string]bool
+		if len(op.PutFail) > 0 {
+			failMh = map[string]bool{}
+			for _, i := range op.PutFail {
+				failMh[string(pool[i%n].Cid().Hash())] = true
+			}
+			cls["put-fault-armed"] = true
+		}
+		u.gbs.setFaults(failMh)
+		has := func(k cid.Cid) bool {
+			h, err := u.inner.Has(ctx, k)
+			return err == nil && h
+		}
+		g, gctx := getter(op, u, other)
 		cls[op.Kind+"-"+op.Path] = true
 
 		ks := make([]cid.Cid, len(op.Req))
@@ -454,6 +592,17 @@ func run(c Case) kit.Result {
 			}
 		}
 		where := fmt.Sprintf("op %d %s(%s)", opi, op.Kind, op.Path)
+		if other != nil {
+			where = fmt.Sprintf("op %d service %d %s(%s, foreign session %q)", opi, op.Svc%2, op.Kind, op.Path, op.Foreign)
+		}
+		// a block whose write to the service's blockstore was made to fail is not in that
+		// blockstore (unless it was there before), so it must not be handed out
+		notStored := func(b blocks.Block) string {
+			if failMh[string(b.Cid().Hash())] && u.gbs.failed() > 0 {
+				return " (its Put was made to fail)"
+			}
+			return ""
+		}
 
 		var emitted []blocks.Block
 		switch op.Kind {
@@ -471,7 +620,7 @@ func run(c Case) kit.Result {
 					return known(keyBytes, b, "%s: GetBlock(%s) returned %d bytes that do not hash to the CID", where, k, len(b.RawData()))
 				}
 				if !has(b.Cid()) {
-					return kit.Fail("%s: GetBlock(%s) handed out a block that is not in the blockstore", where, k)
+					return kit.Fail("%s: GetBlock(%s) handed out a block that is not in the service's blockstore%s", where, k, notStored(b))
 				}
 				emitted = append(emitted, b)
 			} else if b != nil {
@@ -479,13 +628,15 @@ func run(c Case) kit.Result {
 			}
 		case "getmany":
 			ksCopy := append([]cid.Cid(nil), ks...)
-			gbs.on.Store(true)
+			for _, x := range units {
+				x.gbs.on.Store(true)
+			}
 			out := g.GetBlocks(gctx, ks)
 			var fail *kit.Result
 		recv:
 			for {
 				select {
-				case <-gbs.gate:
+				case <-gate:
 				case b, ok := <-out:
 					if !ok {
 						break recv
@@ -506,13 +657,15 @@ func run(c Case) kit.Result {
 						r := known(keyBytes, b, "%s: GetBlocks emitted %s with %d bytes that do not hash to it", where, b.Cid(), len(b.RawData()))
 						fail = &r
 					case !has(b.Cid()):
-						r := kit.Fail("%s: GetBlocks handed out %s before it was in the blockstore", where, b.Cid())
+						r := kit.Fail("%s: GetBlocks handed out %s before it was in the service's blockstore%s", where, b.Cid(), notStored(b))
 						fail = &r
 					}
 					emitted = append(emitted, b)
 				}
 			}
-			gbs.on.Store(false)
+			for _, x := range units {
+				x.gbs.on.Store(false)
+			}
 			if fail != nil {
 				return *fail
 			}
@@ -524,14 +677,23 @@ func run(c Case) kit.Result {
 		}
 
 		// the exchange is never asked for something that was local when the call started
-		ex.mu.Lock()
-		asked := append([]cid.Cid(nil), ex.asked...)
-		dl := append([]delivered(nil), ex.delivered[firstDelivery:]...)
-		ex.mu.Unlock()
+		// (whichever exchange: what is local to the called service must not be fetched at all)
+		var asked []cid.Cid
+		var dl []delivered
+		for i, x := range units {
+			x.ex.mu.Lock()
+			asked = append(asked, x.ex.asked...)
+			dl = append(dl, x.ex.delivered[firstDelivery[i]:]...)
+			x.ex.mu.Unlock()
+		}
 		for _, a := range asked {
 			if localAtCall[string(a.Hash())] {
-				return kit.Fail("%s: exchange was asked for %s although it was in the blockstore when the call started", where, a)
+				return kit.Fail("%s: an exchange was asked for %s although it was in the service's blockstore when the call started", where, a)
 			}
+		}
+		putFailed := u.gbs.failed() > 0
+		if putFailed {
+			cls["put-fault-hit"] = true
 		}
 		if len(asked) > 0 {
 			cls["exchange-asked"] = true
@@ -563,7 +725,8 @@ func run(c Case) kit.Result {
 		}
 
 		// an honest exchange (level A): every valid requested CID that was local or was delivered
-		// by the exchange reaches the caller, with the original bytes
+		// by the exchange reaches the caller, with the original bytes. Once a write to the
+		// blockstore failed, fetched blocks need not arrive any more (error / early close).
 		if c.Level == "A" {
 			for j, k := range ks {
 				if !valid(k) {
@@ -571,7 +734,7 @@ func run(c Case) kit.Result {
 				}
 				avail := localAtCall[string(k.Hash())]
 				for _, d := range dl {
-					if d.clean && d.cid.Equals(k) {
+					if d.clean && d.cid.Equals(k) && !putFailed {
 						avail = true
 					}
 				}
@@ -597,7 +760,7 @@ func run(c Case) kit.Result {
 var spec = kit.Spec[Case]{
 	Prop:     "C05",
 	Name:     "main",
-	Rule:     "pool of 2..10 honest blocks (CIDv0/v1, 5 hash functions incl. identity, some rejected by the default allowlist), random subset local; 1..6 GetBlock/GetBlocks calls (request lists 0..10 with duplicates and alias CIDs) through the service, a shared Session or ContextWithSession, against a scripted exchange of honesty level A (subset/order/duplicates), B (+unrequested valid blocks) or C (+wrong bytes / other block); non-trivial = some call had a valid local CID and an honest block delivered by the exchange",
+	Rule:     "pool of 2..10 honest blocks (CIDv0/v1, 5 hash functions incl. identity, some rejected by the default allowlist), random subset local; 1..6 GetBlock/GetBlocks calls (request lists 0..10 with duplicates and alias CIDs) through the service, a shared Session or ContextWithSession, against a scripted exchange of honesty level A (subset/order/duplicates), B (+unrequested valid blocks) or C (+wrong bytes / other block); 40% of cases have a second independent service (own store, own exchange) and calls whose context also carries a session of the other service (ContextWithSession/EmbedSessionInContext, before or after the own one); 25% of calls make blockstore Put fail for 1..3 pool blocks; non-trivial = some call had a valid local CID and an honest block delivered by the exchange",
 	Quick:    6000,
 	Thorough: 100000,
 	Gen:      genCase,
